@@ -55,8 +55,11 @@ def filler(case):
 def build(case, start_name):
     """case['items']: list of [kindname_or_None, seed, tid_is_other, qualifier]"""
     evs = [SC.ev(TID, start_name, 1, case['seed'], 0)] + filler(case)
-    for i, (code, sd, other, _) in enumerate(case['items']):
-        evs.append(SC.ev(OTHER if other else TID, code, 0, sd, i))
+    for i, (code, sd, other, x) in enumerate(case['items']):
+        e = SC.ev(OTHER if other else TID, code, 0, sd, i)
+        if code in SC.REAL_FAULT_KINDS and x % 4 == 0:
+            e[3] = e[3][:24] + bytes(8)        # pid 0 (kernel_task): a legal value that is falsy
+        evs.append(e)
     evs.append(SC.ev(TID, start_name, 2, case['seed'], 1))
     return evs
 
@@ -109,7 +112,17 @@ def prop_vmfault(ctx, case):
         accepted = [None if a is None else (a[0], a[1]) for a in accepted]
         if got not in accepted:
             raise Violation('vmfault-nested', f'pid/protection {got} expected one of {accepted}; nested={[e[1] for e in mine]}')
-        guard(str, t)
+        text = guard(str, t)
+        if got is not None:
+            # the rendered trace carries them too: it must differ from the text of the same window without its
+            # real-fault records ("omitting them when the window has no such record") - format-independent
+            bare = [e for e in evs if not (e[0] == TID and e[1] in SC.REAL_FAULT_KINDS)]
+            o2 = guard(emit, bare, 'MACH_vmfault', None)
+            if len(o2) == 1 and guard(str, o2[0]) == text:
+                raise Violation('vmfault-text', f'pid/protection {got} taken from the nested record are absent from the text {text!r} '
+                                                f'(same text as the window without the record)')
+            if got[0] == 0:
+                cls.append('pid-0')
     else:
         guard(str, t)
     ctx.note([[e[1], e[0] == OTHER] for e in evs], nontrivial=len(mine) >= 2 or 'first-undecoded' in cls, classes=cls)
